@@ -2,8 +2,8 @@
    vector the model computes through the modelled functions (curie, from_curie, ref_eq, ref_lt, sort_refs,
    validate_ctx, triple_row / row_triple) is that specification on every valid case. *)
 From Coq Require Import Lia Permutation.
-From Curies.model Require Import Str PyData Trie Conv Query Val Answer Spec CheckQ Reference.
-From Curies.proofs Require Import StrFacts DictFacts IndexFacts QueryFacts CheckFacts LawFacts SortFacts ReferenceFacts.
+From Curies.model Require Import Str PyData Trie Conv Query Val Answer Spec CheckQ Csv Reference.
+From Curies.proofs Require Import StrFacts DictFacts IndexFacts QueryFacts CheckFacts LawFacts SortFacts ReferenceFacts CsvFacts.
 
 (* ---- plumbing ---- *)
 Lemma no_colon_In p : no_colon p = true -> ~ In 58%N p.
@@ -38,18 +38,45 @@ Qed.
 Lemma cons_eq {A} (a a' : A) l l' : a = a' -> l = l' -> a :: l = a' :: l'.
 Proof. intros -> ->. reflexivity. Qed.
 
+(* ---- the triples file ---- *)
+Lemma header_short : Forall (short csv_field_limit) triples_header.
+Proof. repeat constructor; unfold short, csv_field_limit; vm_compute; discriminate. Qed.
+
+Lemma curie_fits_short c p i n : curie_fits p i = true -> short csv_field_limit (curie (mk c p i n)).
+Proof. unfold curie_fits, short, curie, mk. cbn [rf_prefix rf_id]. intro H. apply N.leb_le. exact H. Qed.
+
+Lemma triples_file_fit p i p2 i2 p3 i3 : ~ In 58%N p -> ~ In 58%N p2 -> ~ In 58%N p3 -> triples_fit p i p2 i2 p3 i3 = true ->
+  triples_file_roundtrip (mk CRef p i None) (mk CRef p2 i2 None) (mk CRef p3 i3 None) = VInt 1.
+Proof.
+  intros H1 H2 H3 F. unfold triples_fit in F. rewrite !andb_true_iff in F. destruct F as [[F1 F2] F3].
+  unfold triples_file_roundtrip.
+  assert (R: csv_read TAB (csv_write_rows TAB [triples_header; triple_row (mk CRef p i None) (mk CRef p2 i2 None) (mk CRef p3 i3 None)])
+             = Some [triples_header; triple_row (mk CRef p i None) (mk CRef p2 i2 None) (mk CRef p3 i3 None)]).
+  { apply csv_roundtrip; [exact tab_ok|]. constructor; [exact header_short|]. constructor; [|constructor].
+    unfold triple_row. repeat constructor; apply curie_fits_short; assumption. }
+  rewrite R. rewrite triples_roundtrip by assumption. cbn [map pair mk rf_prefix rf_id fst snd].
+  rewrite val_eqb_refl. reflexivity.
+Qed.
+
 (* ---- the theorem ---- *)
-Theorem P_C15_model : forall p i name p2 i2 p3 i3 sep s recs,
+(* the first eleven components, and the twelfth whatever it is *)
+Definition spec_pre (p i name p2 i2 p3 i3 sep s : str) (recs : option (list record)) : list val :=
+  match spec_ref_obs p i name p2 i2 p3 i3 sep s recs with VList l => removelast l | _ => [] end.
+
+Lemma model_spec_but_last : forall p i name p2 i2 p3 i3 sep s recs,
   no_colon p && no_colon p2 && no_colon p3 && negb (is_nil sep) && match recs with Some rs => strict_okb rs | None => true end = true ->
-  model_ref_obs p i name p2 i2 p3 i3 sep s recs = spec_ref_obs p i name p2 i2 p3 i3 sep s recs.
+  exists pre, model_ref_obs p i name p2 i2 p3 i3 sep s recs =
+                VList (pre ++ [triples_file_roundtrip (mk CRef p i None) (mk CRef p2 i2 None) (mk CRef p3 i3 None)]) /\
+              spec_ref_obs p i name p2 i2 p3 i3 sep s recs = VList (pre ++ [T]) /\ length pre = 11.
 Proof.
   intros p i name p2 i2 p3 i3 sep s recs Hv.
   rewrite !andb_true_iff in Hv. destruct Hv as [[[[Hp Hp2] Hp3] _] Hrs].
   apply no_colon_In in Hp, Hp2, Hp3.
   assert (RT : forall c n, from_curie colon (curie (mk c p i n)) = Val (p, i)) by (intros; apply curie_roundtrip; exact Hp).
-  unfold model_ref_obs, spec_ref_obs. f_equal.
+  exists (spec_pre p i name p2 i2 p3 i3 sep s recs). split; [|split; reflexivity].
+  unfold spec_pre, spec_ref_obs. cbn [removelast app]. unfold model_ref_obs. f_equal.
   apply cons_eq; [|apply cons_eq; [|apply cons_eq; [|apply cons_eq; [|apply cons_eq; [|apply cons_eq; [|apply cons_eq;
-    [|apply cons_eq; [|apply cons_eq; [|apply cons_eq; [|apply cons_eq; [|apply cons_eq; [|reflexivity]]]]]]]]]]]].
+    [|apply cons_eq; [|apply cons_eq; [|apply cons_eq; [|apply cons_eq; [|reflexivity]]]]]]]]]]].
   - (* 1 *) reflexivity.
   - (* 2 *) unfold classes. cbn [map]. rewrite !RT. reflexivity.
   - (* 3 *) unfold classes. cbn [map]. rewrite vpair_res_from_curie. reflexivity.
@@ -63,8 +90,43 @@ Proof.
   - (* 11 *) destruct recs as [rs|]; [|reflexivity].
     destruct (strict_mk_conv colon rs Hrs) as [c Hc]. rewrite Hc, RT.
     rewrite (validate_ctx_spec _ _ _ p i Hc). destruct (owner_by_prefix rs p); reflexivity.
-  - (* 12 *) rewrite triples_roundtrip by assumption. cbn [map pair mk rf_prefix rf_id fst snd].
-    rewrite val_eqb_refl. reflexivity.
 Qed.
 
+Theorem P_C15_model : forall p i name p2 i2 p3 i3 sep s recs,
+  no_colon p && no_colon p2 && no_colon p3 && negb (is_nil sep) && match recs with Some rs => strict_okb rs | None => true end = true ->
+  triples_fit p i p2 i2 p3 i3 = true ->
+  model_ref_obs p i name p2 i2 p3 i3 sep s recs = spec_ref_obs p i name p2 i2 p3 i3 sep s recs.
+Proof.
+  intros p i name p2 i2 p3 i3 sep s recs Hv F.
+  destruct (model_spec_but_last p i name p2 i2 p3 i3 sep s recs Hv) as (pre & Em & Es & _). rewrite Em, Es.
+  rewrite !andb_true_iff in Hv. destruct Hv as [[[[Hp Hp2] Hp3] _] _]. apply no_colon_In in Hp, Hp2, Hp3.
+  rewrite triples_file_fit by assumption. reflexivity.
+Qed.
+
+Lemma set_last_app pre x : set_last (pre ++ [x]) = pre ++ [VInt 1].
+Proof.
+  induction pre as [|a pre IH]; [reflexivity|].
+  destruct pre as [|b pre']; [reflexivity|].
+  change (set_last ((a :: b :: pre') ++ [x])) with (a :: set_last ((b :: pre') ++ [x])). rewrite IH. reflexivity.
+Qed.
+
+(* with the triples clause masked, on EVERY valid case (also when a CURIE exceeds csv's field limit) *)
+Theorem P_C15_model_excl : forall p i name p2 i2 p3 i3 sep s recs,
+  no_colon p && no_colon p2 && no_colon p3 && negb (is_nil sep) && match recs with Some rs => strict_okb rs | None => true end = true ->
+  mask_last (model_ref_obs p i name p2 i2 p3 i3 sep s recs) = spec_ref_obs p i name p2 i2 p3 i3 sep s recs.
+Proof.
+  intros p i name p2 i2 p3 i3 sep s recs Hv.
+  destruct (model_spec_but_last p i name p2 i2 p3 i3 sep s recs Hv) as (pre & Em & Es & _). rewrite Em, Es.
+  unfold mask_last. rewrite set_last_app. reflexivity.
+Qed.
+
+(* the clause is FALSE of the faithful model: a reference whose CURIE is longer than csv.field_size_limit() is written by write_triples
+   but read_triples raises csv.Error on the file -- the same input fails on the implementation (known finding K2) *)
+Theorem triples_long_refuted : exists i,
+  triples_fit [97%N] i [97%N] [49%N] [97%N] [49%N] = false /\
+  triples_file_roundtrip (mk CRef [97%N] i None) (mk CRef [97%N] [49%N] None) (mk CRef [97%N] [49%N] None) = VInt 0.
+Proof. exists (repeat 120%N (N.to_nat 131071)). split; vm_compute; reflexivity. Qed.
+
 Print Assumptions P_C15_model.
+Print Assumptions P_C15_model_excl.
+Print Assumptions triples_long_refuted.
